@@ -749,7 +749,13 @@ func concatPieces(info *types.Info, e ast.Expr) ([]ast.Expr, bool) {
 	return append(head, call.Args[1]), true
 }
 
-func c09r6(rc *core.RC) {
+func c09r6(rc *core.RC) { windowSplices(rc, "length") }
+
+// C09.R13: the input offset of the byte under the cursor is s.offset + s.cursor; a splice in front of the cursor moves
+// every later byte of the window by the net size of the splice, so s.offset has to move by the opposite amount.
+func c09r13(rc *core.RC) { windowSplices(rc, "offset") }
+
+func windowSplices(rc *core.RC, field string) {
 	p := rc.P
 	pk := p.Pkg("decoder")
 	n := 0
@@ -856,7 +862,7 @@ func c09r6(rc *core.RC) {
 				for _, s2 := range list {
 					switch x := s2.(type) {
 					case *ast.IncDecStmt:
-						if isStreamField(x.X, "length") {
+						if isStreamField(x.X, field) {
 							found = true
 							if x.Tok == token.INC {
 								upd = upd.Add(core.LinConst(1))
@@ -865,7 +871,7 @@ func c09r6(rc *core.RC) {
 							}
 						}
 					case *ast.AssignStmt:
-						if len(x.Lhs) == 1 && isStreamField(x.Lhs[0], "length") {
+						if len(x.Lhs) == 1 && isStreamField(x.Lhs[0], field) {
 							found = true
 							switch x.Tok {
 							case token.ADD_ASSIGN:
@@ -880,6 +886,18 @@ func c09r6(rc *core.RC) {
 							}
 						}
 					}
+				}
+				if field == "offset" {
+					want := core.LinConst(0).Sub(delta)
+					switch {
+					case !found:
+						rc.Bad(key, as.Pos(), "the window is spliced in front of the cursor (net change %s bytes) but s.offset is not adjusted next to it: InputOffset (s.offset + s.cursor) no longer is the number of input bytes consumed, and Valid, which examines data[InputOffset():], looks at the wrong bytes", delta)
+					case upd.Equal(want):
+						rc.OK(key, as.Pos(), "s.offset changes by %s, the opposite of the splice's net size %s: s.offset + s.cursor stays the input offset", upd, delta)
+					default:
+						rc.Bad(key, as.Pos(), "the splice moves the rest of the window by %s bytes but s.offset is changed by %s (expected %s): InputOffset is off by %s afterwards", delta, upd, want, upd.Sub(want))
+					}
+					continue
 				}
 				if !found {
 					rc.Bad(key, as.Pos(), "the window is spliced (net change %s bytes) but s.length is not updated next to it", delta)
